@@ -91,7 +91,36 @@ func jsonNumbers(v interface{}) interface{} {
 }
 
 func leafOrLeafListJsonReader(m meta.Leafable, data interface{}) (v val.Value, err error) {
+	if err = jsonLeafShape(m, data); err != nil {
+		return nil, err
+	}
 	return node.NewValue(m.Type(), data)
+}
+
+// jsonLeafShape refuses an object or nested arrays where the schema has a leaf
+// or a leaf-list. Conversion would otherwise store their printed form. Anydata takes
+// any content and type empty is present with any content, written [null] or {}
+func jsonLeafShape(m meta.Leafable, data interface{}) error {
+	f := m.Type().Format()
+	switch f {
+	case val.FmtAny, val.FmtAnyList, val.FmtEmpty, val.FmtEmptyList:
+		return nil
+	}
+	switch x := data.(type) {
+	case map[string]interface{}:
+		return fmt.Errorf("%w. expected value not object for %s", fc.BadRequestError, m.Ident())
+	case []interface{}:
+		if !f.IsList() && f != val.FmtUnion {
+			return fmt.Errorf("%w. expected single value not array for %s", fc.BadRequestError, m.Ident())
+		}
+		for _, item := range x {
+			switch item.(type) {
+			case map[string]interface{}, []interface{}:
+				return fmt.Errorf("%w. expected array of values for %s", fc.BadRequestError, m.Ident())
+			}
+		}
+	}
+	return nil
 }
 
 func JsonListReader(list []interface{}) node.Node {
@@ -125,6 +154,9 @@ func JsonListReader(list []interface{}) node.Node {
 					for i, kmeta := range r.Meta.KeyMeta() {
 						// Key may legitimately not exist when inserting new data
 						keyData[i] = fqkGetOrNil(kmeta, container)
+						if err = jsonLeafShape(kmeta, keyData[i]); err != nil {
+							return nil, nil, err
+						}
 					}
 					if key, err = node.NewValues(r.Meta.KeyMeta(), keyData...); err != nil {
 						return nil, nil, err
